@@ -274,3 +274,100 @@ def check_terminal():
     finally:
         crun.simulation, sys.argv = orig, orig_argv
     return dict(reproduced=False, cases=cases)
+
+
+def check_layered():
+    """[layered] options and `-l / --layered` through emg3d.cli.main.main vs the API call Simulation(..., layered=True, layered_opts=<the same options>): directly, and after the
+    simulation was stored (3D or layered) and loaded again with / without `-l`.  Compared: the options the simulation holds (stored with --save / --cache, read back with
+    Simulation.from_file) against the numbers written in the configuration file and against the API simulation, and the data of a forward run against the API data
+    (laterally varying model, so the averaging region matters)."""
+    import sys
+    import emg3d
+    from emg3d.cli.main import main
+    cases = 0
+    td = tempfile.mkdtemp(prefix='c18l_')
+    argv0 = list(sys.argv)
+    sys.argv = ['emg3d', 'config-given-through-main-args']
+
+    def fail(**kw):
+        kw.update(reproduced=True, cases=cases, how='contracts.c18_concrete.check_layered: emg3d.cli.main.main(<cfg> [-l] [--save/--load/--cache]) in a temporary directory vs '
+                                                     'emg3d.Simulation(survey, model, layered=True, layered_opts=<options of [layered]>)')
+        return kw
+    try:
+        rng = np.random.default_rng(18)
+        hx = np.ones(12) * 400.0
+        grid = emg3d.TensorMesh([hx, hx, np.ones(8) * 250.0], origin=(-2400, -2400, -2000))
+        model = emg3d.Model(grid, 10 ** rng.uniform(-0.5, 1.5, grid.shape_cells), mapping='Resistivity')
+        src = {'TxED-1': emg3d.TxElectricDipole((-900.0, 100.0, -300.0, 20.0, 0.0))}
+        rec = {f'RxEP-{i + 1}': emg3d.RxElectricPoint((-300.0 + 500.0 * i, -150.0, -400.0, 0.0, 0.0)) for i in range(3)}
+        survey = emg3d.Survey(sources=src, receivers=rec, frequencies=[0.5, 2.0], noise_floor=1e-17, relative_error=0.05)
+        emg3d.save(os.path.join(td, 'survey.h5'), survey=survey, verb=0)
+        emg3d.save(os.path.join(td, 'model.h5'), model=model, verb=0)
+        base = f"[files]\npath = {td}\nsurvey = survey.h5\nmodel = model.h5\n[simulation]\nmax_workers = 1\ngridding = same\n[noise_opts]\nadd_noise = False\n"
+        user_sets = [dict(method='prism', radius=1300.0, factor=1.5, minor=0.5), dict(method='cylinder', radius=900.0)]
+
+        def api_opts(u):
+            o = {k: v for k, v in u.items() if k in ('method', 'merge')}
+            e = {k: v for k, v in u.items() if k in ('radius', 'factor', 'minor', 'check_foci')}
+            if e:
+                o['ellipse'] = e
+            return o
+
+        def run(args):
+            main([os.path.join(td, 'run.cfg'), '-q'] + args)
+
+        def held(fname):
+            s = emg3d.Simulation.from_file(os.path.join(td, fname), verb=0)
+            return s.layered, s.layered_opts
+        def given_held(got, u):
+            for k, v in u.items():
+                g = got.get(k, '<absent>') if k in ('method', 'merge') else got.get('ellipse', {}).get(k, '<absent>')
+                if g != v:
+                    return k, g, v
+            return None
+        for iu, u in enumerate(user_sets):
+            with open(os.path.join(td, 'run.cfg'), 'w') as f:
+                f.write(base + '[layered]\n' + ''.join(f'{k} = {v}\n' for k, v in u.items()))
+            asim = emg3d.Simulation(emg3d.load(os.path.join(td, 'survey.h5'), verb=0)['survey'], model, max_workers=1, layered=True, layered_opts=api_opts(u),
+                                    gridding='same', tqdm_opts=False)
+            want = asim.layered_opts
+            # the ways a run with -l can come about (dry runs; the simulation each step leaves is stored and read back); (arguments, file read back, layered expected)
+            steps = [('--save without -l', ['--save', 'b0.h5'], 'b0.h5', False), ('--save without -l, then --load -l', ['-l', '--load', 'b0.h5', '--save', 'b1.h5'], 'b1.h5', True)]
+            if iu == 0:
+                steps = [('direct, -l', ['-l', '--save', 'a.h5'], 'a.h5', True)] + steps + [
+                    ('--save -l, then --cache without -l', ['--cache', 'a.h5'], 'a.h5', False),
+                    ('--save -l, --cache without -l, then --load -l', ['-l', '--load', 'a.h5', '--save', 'c.h5'], 'c.h5', True),
+                    ('--save -l, then --load -l', ['-l', '--load', 'c.h5', '--save', 'd.h5'], 'd.h5', True)]
+            for name, args, fname, lay in steps:
+                cases += 1
+                run(['-f', '-d', '--output', 'o.h5'] + args)
+                flag, got = held(fname)
+                if flag is not lay:
+                    return fail(clause='the simulation is layered exactly when the run is given -l', way=name, layered=repr(flag))
+                lost = given_held(got, u)
+                if lost:
+                    return fail(clause='an option written in [layered] is held by the simulation of the run, with the value written', way=name, config_section=u, option=lost[0],
+                                cli_value=repr(lost[1]), written=repr(lost[2]))
+                if not lay:
+                    continue
+                ge, we = got.get('ellipse', {}), want.get('ellipse', {})
+                if set(got) != set(want) or set(ge) != set(we) or got.get('method') != want.get('method') or \
+                        any(not np.isclose(ge[k], we[k], rtol=1e-12, atol=0) for k in we if isinstance(we[k], float)):
+                    return fail(clause='the simulation of the CLI run holds the same layered_opts as the API simulation', way=name, config_section=u, cli=repr(got), api=repr(want))
+            # data of real forward runs
+            if iu == 0:
+                asim.compute(observed=True, add_noise=False)
+                adata = asim.data.observed.data
+                for name, args in (('direct, -l', []), ('--save without -l (dry run), then --load -l', ['--load', 'b0.h5'])):
+                    cases += 1
+                    run(['-f', '-l', '--output', 'r.h5'] + args)
+                    cdata = np.asarray(emg3d.load(os.path.join(td, 'r.h5'), verb=0)['data'])
+                    if cdata.shape != adata.shape or not np.allclose(cdata, adata, rtol=1e-8, atol=0, equal_nan=True):
+                        with np.errstate(all='ignore'):
+                            rel = float(np.nanmax(abs(cdata - adata) / abs(adata))) if cdata.shape == adata.shape else None
+                        return fail(clause='CLI forward run with -l writes the same data as the API call with layered=True and the same layered_opts', way=name, config_section=u,
+                                    max_rel_diff=rel)
+    finally:
+        sys.argv = argv0
+        shutil.rmtree(td, ignore_errors=True)
+    return dict(reproduced=False, cases=cases)
